@@ -43,6 +43,16 @@ Proof. exact good_of_hyps. Qed.
 Theorem C18_structure_eqb_iff : forall a b, structure_eqb a b = true <-> structure a = structure b.
 Proof. exact structure_eqb_eq. Qed.
 
+(* the hypothesis nears_at_root is necessary, and d2compiler does NOT guarantee it: `near: top-left` on a nested shape
+   compiles when a root shape is named top-left; inside the nested graph of an enclosing constant near the key becomes
+   a constant and the shape is re-attached to the wrong parent (witness: StubOk.near_witness =
+   `top-left; N: {near: bottom-center; o: {near: top-left}; p}`; replayed on the real code: finding
+   C18-near-constant-name-inside-near) *)
+Theorem C18_layout_nested_refuted_without_nears_at_root :
+  exists g g' tr, wf g /\ absids_distinct g /\ H_core_structure stub_engine /\
+                  layout stub_engine stub_router (mkInfo false DPlain) g = Ok (g', tr) /\ structure g' <> structure g.
+Proof. exact refuted_without_nears_at_root. Qed.
+
 (* non-vacuity: the checker's stub engines satisfy the engine hypothesis, and a diagram with a grid whose cell
    is a container, a sequence diagram, a constant near and cross-diagram edges satisfies the graph hypotheses
    and is laid out (6 engine / router calls) *)
@@ -57,6 +67,7 @@ Print Assumptions C18_layout_nested_preserves_structure.
 Print Assumptions C18_layout_nested_any_fuel.
 Print Assumptions C18_restore_order_sorts_back.
 Print Assumptions C18_good_of_checked_hypotheses.
+Print Assumptions C18_layout_nested_refuted_without_nears_at_root.
 Print Assumptions C18_structure_eqb_iff.
 Print Assumptions C18_engine_hypothesis_satisfiable.
 Print Assumptions C18_graph_hypotheses_satisfiable.
